@@ -221,7 +221,7 @@ func spec_knownShape(p *pkgInfo, sig *types.Signature) bool {
 }
 
 //@ func pkgInfo.ResultsOf
-//@   props C14
+//@   props C14 C05
 //@   requires p != nil && p.Package != nil && p.Package.TypesInfo != nil && p.u != nil && typeFunc != nil
 //@   assume spec_isSig(typeFunc.Type())
 //@   note (assume) go/types: the type of a *types.Func is a *types.Signature
@@ -258,7 +258,7 @@ func spec_asCommentGroup(n ast.Node) *ast.CommentGroup { g, _ := n.(*ast.Comment
 func spec_pkgInfoOf(p Package) *pkgInfo { pi, _ := p.(*pkgInfo); return pi }
 
 //@ func newPkg
-//@   props C13 C04 C06 C12
+//@   props C13 C04 C06 C12 C14
 //@   assigns *
 //@   preserves pkg/types.Universe. pkg/sumfile.File. golang.org/x/tools/go/packages. pkg/types.pkgInfo.imports pkg/types.pkgInfo.u
 //@   requires pkg != nil && pkg.Types != nil && pkg.Types.Scope() != nil && pkg.TypesInfo != nil && pkg.Fset != nil && u != nil
@@ -278,6 +278,10 @@ func spec_pkgInfoOf(p Package) *pkgInfo { pi, _ := p.(*pkgInfo); return pi }
 //@   ensures spec_pkgInfoOf(result).imports != nil && len(spec_pkgInfoOf(result).imports) == 0
 //@   note a new package starts with an EMPTY import table (its dependencies are not registered yet) and constructing it touches no other package's table (C13: nothing is resolved before registration is complete)
 //@   lit 3 ensures result
+//@   lit 4 invariant p != nil && p.Package != nil && p.Package.TypesInfo != nil && p.signatures != nil
+//@   lit 4 invariant done2
+//@   note (lit 4 invariant done2, C14) the call-site walk starts only after the declaration walk has been through EVERY file (loop 2 ran to its normal exit): whatever file a function is declared in, its *ast.FuncDecl / *ast.FuncLit is in the signature index before any call site can claim the signature - the index ResultsOf starts from does not depend on the order of the files
+//@   loop 4 invariant p != nil && p.Package != nil && p.Package.TypesInfo != nil && p.signatures != nil
 //@   lit 3 invariant p != nil && p.Package != nil && p.Package.Fset != nil && p.Package.TypesInfo != nil && p.endLineToCommentGroup != nil && p.endLineToTrailingCommentGroup != nil && trailing != nil && p.signatures != nil && p.funcDecls != nil
 //@   lit 3 invariant forall fl fileLine :: has(p.endLineToCommentGroup, fl) && p.endLineToCommentGroup[fl] != nil ==> !spec_declComment(p.endLineToCommentGroup[fl])
 //@   lit 3 invariant forall fl fileLine :: has(p.endLineToTrailingCommentGroup, fl) && p.endLineToTrailingCommentGroup[fl] != nil ==> spec_declComment(p.endLineToTrailingCommentGroup[fl])
@@ -336,7 +340,7 @@ func spec_methodsOK(p *pkgInfo) bool {
 }
 
 //@ func pkgInfo.MethodsOf
-//@   props C13
+//@   props C13 C05
 //@   pure
 //@   requires p != nil && n != nil && spec_methodsOK(p)
 //@   ensures ptr ==> eq(result, p.methods[n.Origin()])
@@ -347,17 +351,17 @@ func spec_methodsOK(p *pkgInfo) bool {
 //@   note MethodsOf(T, true) is the list recorded for T's origin type (so generic T works); MethodsOf(T, false) exactly its value-receiver methods
 
 //@ func pkgInfo.Type
-//@   props C13
+//@   props C13 C05
 //@   pure
 //@   requires p != nil
 //@   ensures result == p.types[n]
 //@ func pkgInfo.Types
-//@   props C13
+//@   props C13 C05
 //@   pure
 //@   requires p != nil
 //@   ensures eq(result, p.types)
 //@ func pkgInfo.Constant
-//@   props C13
+//@   props C13 C05
 //@   pure
 //@   requires p != nil
 //@   ensures result == p.constants[n]
@@ -372,7 +376,7 @@ func spec_methodsOK(p *pkgInfo) bool {
 //@   requires p != nil
 //@   ensures result == p.funcs[n]
 //@ func pkgInfo.Functions
-//@   props C13
+//@   props C13 C05
 //@   pure
 //@   requires p != nil
 //@   ensures eq(result, p.funcs)
@@ -386,7 +390,7 @@ func spec_importsOK(p *pkgInfo) bool {
 }
 
 //@ func pkgInfo.Imports
-//@   props C13
+//@   props C13 C05
 //@   requires p != nil && p.Package != nil && p.u != nil && spec_importsOK(p)
 //@   assigns p.imports
 //@   ensures eq(result, p.imports) && spec_importsOK(p)
@@ -426,7 +430,7 @@ func spec_importsOK(p *pkgInfo) bool {
 //@   ensures result == p.Package.Fset.Position(pos)
 
 //@ func pkgInfo.File
-//@   props C13 C14
+//@   props C13 C14 C04 C05
 //@   pure
 //@   requires p != nil && p.Package != nil
 //@   requires forall i int :: 0 <= i && i < len(p.Package.Syntax) ==> p.Package.Syntax[i] != nil
@@ -435,7 +439,7 @@ func spec_importsOK(p *pkgInfo) bool {
 //@   note LocateInPackage-style look-up inside one package: the FIRST file whose extent contains pos; nil exactly when no file of the package contains it
 
 //@ func pkgInfo.Decl
-//@   props C13 C14
+//@   props C13 C14 C04 C05
 //@   pure
 //@   requires p != nil && p.Package != nil
 //@   requires forall i int :: 0 <= i && i < len(p.Package.Syntax) ==> p.Package.Syntax[i] != nil
@@ -444,7 +448,7 @@ func spec_importsOK(p *pkgInfo) bool {
 //@   note a declaration is answered only if its extent contains pos (go/parser: the declarations of a file are non-nil - assumed)
 
 //@ func pkgInfo.Eval
-//@   props C14
+//@   props C14 C05
 //@   requires p != nil && p.Package != nil && expr != nil
 //@   noglobalstate
 //@   assigns nothing
@@ -831,7 +835,7 @@ func spec_hasTrailingAt(p *pkgInfo, pos token.Pos) bool {
 //@   note Doc(pos) = the tags and remaining lines of the LEADING group indexed for the line directly above pos (nothing if there is none); it is a pure observer: no memo, every call recomputes from the index
 
 //@ func pkgInfo.Comment
-//@   props C12
+//@   props C12 C05
 //@   pure
 //@   requires p != nil && p.Package != nil && p.Package.Fset != nil
 //@   ensures spec_hasTrailingAt(p, pos) ==> eq(result, spec_groupLines(spec_trailingAt(p, pos)))
